@@ -12,7 +12,7 @@
 (* successor per stimulus, so TLC's workers generate and judge stimuli of  *)
 (* different jobs in parallel.                                             *)
 (***************************************************************************)
-EXTENDS PdlInherit, PdlSupport, PdlSchema, Json, IOUtils
+EXTENDS PdlInherit, PdlDev, PdlSchema, Json, IOUtils
 
 Descs == ndJsonDeserialize(IOEnv.DESCS)
 Jobs == ndJsonDeserialize(IOEnv.JOBS)
@@ -146,6 +146,7 @@ InfoResult(j) ==
   IN
   [job |-> j, k |-> "info", rust |-> RustSupported(d), py |-> PySupported(d),
    cxx |-> CxxSupported(d), java |-> JavaSupported(d),
+   pyclean |-> PyClean(d), cxxclean |-> CxxClean(d), javaclean |-> JavaClean(d),
    types |-> [i \in 1..Len(ts) |-> TypeSchema(d, ts[i].id)]]
 
 EnumResult(j, s) ==
